@@ -219,7 +219,7 @@ def accept_forms(P, R):
         if w not in ('R', 'D'):
             continue
         args = s.ev['args'][2:]
-        gs = acc.guards(s.bid)
+        gs = rules.expanded_guards(P, acc, s.bid)
 
         def nonempty(field):
             for g in gs:
